@@ -26,6 +26,10 @@ RULE = (
     "ValueError / TypeError) and must not return a relation; afterwards the fingerprint (repr, str, columns, bounds, "
     "hash, leaf payload content) of every relation of the pool must be unchanged.  Non-trivial = the target is not a "
     "bare leaf; distinct = (edit kind, option combination, target engine, target skeleton tail)."
+    "  Unsupported expressions also appear nested in functions that declare support everywhere, stacked on a "
+    "selection holding their portable look-alike, or next to it in one conjunction; join predicates are also "
+    "issued through explicit Join(min_columns/max_columns) objects and Join.partial(is_lhs); a predicate object "
+    "already used in a well-formed request is re-used in an ill-formed one. "
 )
 ASSUMPTIONS = [
     "expected exception class per edit kind follows the Raises sections of the Relation factory docstrings",
